@@ -20,15 +20,27 @@ class C01(Prop):
     streams = {"lookup": X.LOOKUP_STREAM, "enum": X.ENUM_STREAM, "tok": X.TOK_STREAM, "n0eval": X.EVAL_STREAM,
                "sni": X.SNI_STREAM}
 
+    classifiers = {
+        # recorded finding C01/qmark-key: a step of the addressed path is a key that begins with '?'
+        "c01_qmark_key": lambda case, obs, failure: any(isinstance(st, str) and st.startswith("?") for st in (case["input"].get("path") or [])),
+    }
+
     def valid(self, case):
         return False      # path / tree / spelling are interdependent: no structural shrinking
 
     def generate(self, rng, tier):
         ntrees = 180 if tier == "quick" else 2500
         out = []
-        for _ in range(ntrees):
+        # keys with a dot inside (file names, version numbers, dotted option names), next to a nested path of the same
+        # spelling with '/' for '.': a plain key is taken as it is, at the root and in nested dictionaries
+        fixed = [{"server.port": 8080, "server": {"port": 1}, "d": {"file.txt": "x", "v1.2": {"a.b": 2, "a": {"b": 3}}}},
+                 {"cfg": {"log.level": "info", "log": {"level": "debug"}, "paths": [{"a.b": 1}, {"a": {"b": 2}}]}, "x.y.z": 0},
+                 {"a": {"b.c": [1, {"d.e": 5}]}, "b.c": "top"}]
+        for n_tree in range(ntrees):
             root = rng.choice(["dict", "dict", "list"])
             t = X.gen_tree(rng, 4, root=root)
+            if n_tree < len(fixed):
+                root, t = "dict", copy.deepcopy(fixed[n_tree])
             if rng.random() < 0.2:
                 # two containers with equal content at different places (identical order lines, equal matrix rows):
                 # equal is not identical - both are enumerated, both resolve
@@ -160,6 +172,8 @@ class C01(Prop):
         i, st = case["input"], case["stream"]
         if st in ("tok", "n0eval", "sni"):
             return L.pstr(i["s"])
+        if any(isinstance(st_, str) and st_.startswith("?") for st_ in (i.get("path") or [])):
+            raise L.Unrepresentable("a key that begins with '?': recorded finding C01/qmark-key, oracle only")
         obj = X.build(i["tree"], i["mode"])
         if st == "enum":
             return X.tree_lit(obj)
